@@ -405,8 +405,8 @@ P("C01", level="other",
   explanation="kernels, containers, set builders and the sub-daily fillers are proved for all inputs; the expansion as a whole is not reached by any discharged obligation",
   not_covered=["rrul_fill_yly / rrul_fill_mly main loops (period stepping, INTERVAL/BYMONTH congruence, SHIFT year adjustment): seeds C09-m1, C16-m3, C17-m3", "several values per BYxxx part interacting inside one builder call", "refill boundary (restart consistency)", "composition lemma L-C01 (prose)"])
 P("C17", level="other",
-  level_text="BYEASTER: easter_get_yday equals the anonymous Gregorian computus (Meeus/Jones/Butcher) for every year 1901..2099 (C17.easter), and fill_yly_eastr selects exactly the day N days from Easter Sunday for every N in -366..366 whenever that day lies inside the year (C17.eastr; outside the year: known finding KF-C17-easter-outside-year). SHIFT=N: shift() moves any date by exactly N calendar days and files it under the year it falls in (C17.shift.days.n31/.n92 quick, .n366 thorough; day-number spec). SHIFT=NB: from a business day the N-th business day after/before, from a weekend the adjacent business day in the direction of the shift then N or N-1 business days on, -0B back to Friday (C17.shift.bdays.n6: N = 0..6, both signs and direction flags).",
-  level_note="Trusted: spec_cal.h computus and day numbers (self-tested at setup); the +-383 container replaced by its native one-value behaviour (real container: C19), one candidate per call. Stated bound: business-day amounts 0..6 (larger N: no answer from any back end in 15 min); calendar-day amounts up to 92 in the quick tier. Not covered: snarf_shift text parsing, combined day+business-day shifts, the start-year adjustment for shifts in rrul_fill_yly (seed C17-m3).",
+  level_text="BYEASTER: easter_get_yday equals the anonymous Gregorian computus (Meeus/Jones/Butcher) for every year 1901..2099 (C17.easter), and fill_yly_eastr selects exactly the day N days from Easter Sunday for every N in -366..366 whenever that day lies inside the year (C17.eastr; outside the year: known finding KF-C17-easter-outside-year). SHIFT=N: shift() moves any date by exactly N calendar days and files it under the year it falls in (C17.shift.days.n31/.n92: N up to 92 days; day-number spec). SHIFT=NB: from a business day the N-th business day after/before, from a weekend the adjacent business day in the direction of the shift then N or N-1 business days on, -0B back to Friday (C17.shift.bdays.n6: N = 0..6, both signs and direction flags).",
+  level_note="Trusted: spec_cal.h computus and day numbers (self-tested at setup); the +-383 container replaced by its native one-value behaviour (real container: C19), one candidate per call. Stated bound: business-day amounts 0..6 (larger N: no answer from any back end in 15 min); calendar-day amounts up to 92 (up to 366: no usable answer within 45 min). Not covered: snarf_shift text parsing, combined day+business-day shifts, the start-year adjustment for shifts in rrul_fill_yly (seed C17-m3).",
   explanation="the Easter clause and the calendar-day SHIFT clause are proved for all stated inputs; the business-day clause for amounts up to 6; the fillers' use of them is not covered",
   not_covered=["business-day shifts of more than 6 days", "snarf_shift text parsing, combined SHIFT=x,yB", "rrul_fill_yly's start-year adjustment for shifted rules (seed C17-m3)", "BYEASTER days falling into a neighbouring year (known finding)"])
 P("C13", not_applicable="executor output routing is kernel/process behaviour (pipes, splice/tee/sendfile, exec, signals, waitpid): no function contract within CBMC's reach can express 'every byte the job writes arrives exactly once'; proving a model of the kernel would be a different technique family (DESIGN.md section 7)")
@@ -515,7 +515,7 @@ O("C05.umask.text", ["C05"], "h_C14m.c", "h_C05_umask_text",
 O("C14.make_task.vtodo", ["C14"], "h_C14m.c", "h_C14_make_task_vtodo",
   "make_task on an execution request (VTODO without DTSTART): a positive DURATION becomes the timeout unchanged, otherwise a DUE time becomes the deadline unchanged, otherwise no limit - for every duration and every DUE value",
   ["make_task"], **EM)
-for nmax, uw, tiers in ((31, 4, ["quick", "thorough"]), (92, 6, ["quick", "thorough"]), (366, 16, ["thorough"])):
+for nmax, uw, tiers in ((31, 4, ["quick", "thorough"]), (92, 6, ["quick", "thorough"])):	# 366 days (unwind 16): no usable answer within 45 min
     O("C17.shift.days.n%d" % nmax, ["C17", "C16"], "h_C17s.c", "h_C17_shift_days",
       "shift() with SHIFT=N (calendar days) on any date 1902..2098 and any N in -%d..%d, N != 0: one date in, one date out, filed under the year it falls in (same / previous / next), exactly N days away from the input (day-number spec)" % (nmax, nmax),
       ["shift", "unpack_cand", "pack_cand", "__get_ndom"], unwind=uw, defines=["-DSHIFT_NMAX=%d" % nmax], tiers=tiers,
